@@ -467,7 +467,7 @@ func programs() []*Program {
 			c := baseConfig("Fl")
 			c.RequiredFields = []string{"Fl.A", "FlSub.X", "Fl.Roles", "Fl.Labels", "Fl.L", "Fl.Subs"}
 			c.ComputedFields = []string{"Fl.B", "Fl.Sub.Y", "Fl.C", "Fl.Seen", "Fl.A", "FlSub.X", "Fl.Roles"}
-			c.SensitiveFields = []string{"Fl.C", "FlSub.Y"}
+			c.SensitiveFields = []string{"Fl.C", "FlSub.Y", "Fl.Sub", "Fl.Subs", "Fl.Labels", "Fl.L"}
 			c.UseStateForUnknownByDefault = true
 			c.Validators = map[string][]string{"Fl.A": {"UseMockValidator()"}, "FlSub.X": {"UseMockValidator()", "UseMockValidator()"}}
 			c.PlanModifiers = map[string][]string{"Fl.C": {"github.com/hashicorp/terraform-plugin-framework/tfsdk.RequiresReplace()"}}
